@@ -18,6 +18,9 @@ Tie to /repo, every run:
      (rel. 1e-3 float32 / 1e-7 float64) and isfinite; Coq's exact rational evaluation cross-checks the numeric
      evaluator; for the FFT-based entry points the columns P e_j are read off the implementation and the closed
      forms are compared with autograd (phase, amplitude, complex field, jvp), first and cached propagator call.
+Model-free sweep (harness/props/c05_sweep.py): every public function / method of the anchored files is enumerated from the
+current source and must have a call recipe or a documented exclusion (fail closed); on the real code a gradient must exist
+w.r.t. every tensor parameter, be finite and equal central finite differences.
 Direct oracles: autograd vs central finite differences, finiteness on a boundary stream (black, white, primaries,
 saturated and out-of-gamut colours, ...), no autograd break (.detach/.item/.numpy/torch.tensor(tensor)) on a
 parameter's path (AST pass), cache holds detached kernels.
@@ -28,6 +31,7 @@ import numpy as np
 import torch
 from tracer import deep, shim
 from tracer.recipes import c05 as R
+from harness.props import c05_sweep as S
 
 PROPS = ['C05_D_correct', 'C05_D_correct_selected', 'C05_dom_mdom', 'C05_grad_finite', 'C05_grad_correct', 'C05_conds_iff',
          'C05_dom_of_split', 'C05_evalQ_sound', 'C05_chain_rule', 'C05_ssa_correct', 'C05_tangent_finite',
@@ -226,6 +230,8 @@ def real_objective(e, point, need_grad=True):
     dt = tdtype(e)
     params = {pn: torch.tensor(np.asarray(point[pn], dtype=np.float64).reshape(shp), dtype=dt, requires_grad=need_grad) for pn, shp in e.params}
     out = e.real(params)
+    if isinstance(out, (list, tuple)): out = S.cat(*out)
+    if torch.is_complex(out): out = torch.cat((out.real.reshape(-1), out.imag.reshape(-1)))
     w = torch.tensor([float(R.weight(i)) for i in range(out.numel())], dtype=out.dtype)
     obj = (out.reshape(-1) * w).sum()
     if not need_grad:
@@ -512,7 +518,58 @@ def tainted_breakers(only=None):
     return res
 
 
-ORACLES = {'grad': oracle_grad, 'fft': oracle_fft, 'propagator': oracle_propagator, 'structure': oracle_structure}
+def directional_difference(e, point, g, rng, ndir=3, ncoord=10):
+    """central differences along a few random sign vectors and a few single coordinates vs the autograd gradient:
+    list of (autograd directional derivative, finite difference, noise allowance)"""
+    rel = 1e-6 if e.dtype == 'f64' else 1e-3
+    eps = 2.3e-16 if e.dtype == 'f64' else 1.2e-7
+    base = np.array(e.env_of(point))
+    dirs = [np.array([rng.choice([-1.0, 1.0]) for _ in range(e.nvars)]) for _ in range(ndir)]
+    for i in rng.sample(range(e.nvars), min(ncoord, e.nvars)):
+        v = np.zeros(e.nvars); v[i] = 1.0; dirs.append(v)
+    out = []
+    for v in dirs:
+        h = rel * max(0.05, float(np.abs(base[v != 0]).max()))
+        vals = []
+        for sgn in (1, -1):
+            x = base + sgn * h * v
+            p2, off = {}, 0
+            for pn, shp in e.params:
+                sz = int(np.prod(shp)); p2[pn] = x[off:off + sz].reshape(shp); off += sz
+            p2 = round_point(e, p2)
+            vals.append((real_objective(e, p2, need_grad=False)[0], np.array(e.env_of(p2))))
+        step = vals[0][1] - vals[1][1]                       # the step actually taken after rounding to the working precision
+        nv = float(np.abs(v).sum())
+        fd = vals[0][0] - vals[1][0]
+        out.append((float(g @ step), fd, 100 * eps * (max(abs(vals[0][0]), abs(vals[1][0])) + 1.0), float(np.abs(g).max() * np.abs(step).max() * (nv ** 0.5))))
+    return out
+
+
+def oracle_sweep(inp):
+    """the property itself on one public entry point (no model): a gradient exists w.r.t. every tensor parameter, is finite and
+    matches central finite differences.  Replayable: the recipe is rebuilt from (key, variant, seed)."""
+    import random as _random
+    try:
+        e = S.build(inp['key'], inp['variant'], inp['seed'])
+        point = round_point(e, e.point)
+        val, g, used = real_objective(e, point)
+    except Exception as ex:
+        return [('no_exception', False, 'a gradient', repr(ex)[:400])]
+    res = [('gradient_path_exists', all(used), 'autograd reaches every tensor parameter', {pn: bool(u) for (pn, _), u in zip(e.params, used)})]
+    fin = bool(np.all(np.isfinite(g))) and math.isfinite(val)
+    res.append(('gradient_finite', fin, 'no NaN/Inf', 'finite' if fin else {'value': str(val), 'non_finite_entries': int((~np.isfinite(g)).sum()), 'of': int(g.size)}))
+    if fin and all(used) and e.fd:
+        tol = FD_TOL[e.dtype] * e.fd_slack
+        worst = None
+        for dd, fd, noise, scale in directional_difference(e, point, g, _random.Random(inp['seed'] + 1)):
+            allowed = tol * max(abs(dd), abs(fd), 0.02 * scale) + noise
+            if worst is None or abs(dd - fd) - allowed > worst[0]: worst = (abs(dd - fd) - allowed, dd, fd, allowed)
+        res.append(('gradient_equals_central_difference', worst[0] <= 0, 'directional derivatives within rel %g + float noise' % tol,
+                    {'autograd_directional': worst[1], 'central_difference': worst[2], 'allowed': worst[3]}))
+    return res
+
+
+ORACLES = {'grad': oracle_grad, 'sweep': oracle_sweep, 'fft': oracle_fft, 'propagator': oracle_propagator, 'structure': oracle_structure}
 FN = {'wave': 'odak.learn.wave', 'ray': 'odak.learn.raytracing', 'refract': 'odak.learn.raytracing.refract', 'mesh': 'odak.learn.raytracing.planar_mesh.mirror',
       'luminous': 'odak.learn.raytracing', 'colour': 'odak.learn.perception', 'loss': 'odak.learn'}
 
@@ -525,6 +582,7 @@ def fn_of(name, inp):
         if inp['group'] == 'refract': return 'odak.learn.raytracing.refract'
         if inp['group'] == 'mesh': return FN['mesh']
         return '%s.%s' % (FN[inp['group']], base)
+    if name == 'sweep': return inp['key'].replace('odak/', 'odak.').replace('/', '.').replace('.py:', '.')
     if name == 'fft': return 'odak.learn.wave.propagate_beam'
     if name == 'propagator': return 'odak.learn.wave.propagator.__call__'
     return inp.get('function', 'odak.learn')
@@ -651,18 +709,22 @@ def colour_tie(ctx, ents):
 
 
 def run(ctx):
+    ctx.level = 'partial'
     ctx.rule = ('per traced entry point: structured valid points (well-shaped triangles hit inside, unit directions, in-gamut colours, '
                 'fields away from 0) re-drawn until every Coq-computed side condition has margin >= %g, plus a boundary stream '
                 '(black / white / primaries / saturated and out-of-gamut colours / zero field / axes / coincident points / parallel rays / '
                 'identical images); FFT group: all 8 propagation types x 5 zero-padding modes x grids 5x5..6x6, apertures, dark pixels; '
-                'non-trivial = gradient compared with the proven derivative; distinct by (entry, point)' % MARGIN)
+                'sweep: every recipe of harness/props/c05_sweep.py at 2 (quick) / 8 (thorough) random valid points; '
+                'non-trivial = gradient compared with the proven derivative or with central differences; distinct by (entry, point)' % MARGIN)
     ctx.trusted += ['tracer/shim.py + tracer/recipes/c05.py + tracer/deep.py (translator to `expr` programs; validated each run by the numeric self-check against the real functions)',
                     'tracer/deep.py evalv/Program.run (numeric evaluation of Coq\'s tangent terms, forward-mode threading licensed by C05_ssa_correct; cross-checked each run against Coq\'s exact rational evaluation)',
                     'torch autograd engine and torch kernels: float rounding not modelled (tolerances 1e-3 float32 / 1e-7 float64)',
                     'FFT-based entry points are treated as linear maps (C03); their matrix columns are read off the implementation; fft2/ifft2 not modelled here',
                     'refract: the Newton step count is read off the implementation (value match); planar_mesh: the hit pattern is read off the implementation',
                     'unrolled tensors: entry points are traced at small fixed shapes (2x2 fields, 1 ray, 1 triangle, 3x1x2 images)']
-    ctx.assumptions += ['documented non-smooth points are excluded: field = 0 for amplitude / phase, branch thresholds of the colour conversions, ties of max/min and hue sector borders, '
+    ctx.assumptions += ['UNPROVED model assumption behind "finite": reverse-mode autograd yields NaN/Inf only through a singular local derivative of an operation on the path '
+                        '(also in the branch torch.where does not select); the theorems show the absence of such singular sub-expressions, the engine itself is only observed',
+                        'documented non-smooth points are excluded: field = 0 for amplitude / phase, branch thresholds of the colour conversions, ties of max/min and hue sector borders, '
                         'coincident points, parallel rays, degenerate triangles, zero normals, total internal reflection, mesh edges, identical images for PSNR']
     ctx.gate()
     ctx.ensure_theories(['theories/C05/Props.vo'])
@@ -676,6 +738,8 @@ def run(ctx):
     for key in sorted(hits):
         apply_oracle(ctx, 'structure', {'function': key})
     ctx.case('structure/ast-pass', ('ast', len(hits)))
+    # ---------------- model-free sweep over every public entry point of the anchored files (fail closed)
+    sweep(ctx, 8 if ctx.thorough else 2)
     # ---------------- B1: trace, Coq report
     ents, errs = build_entries(T, cfg)
     ctx.programs = len(ents)
@@ -752,11 +816,27 @@ def run(ctx):
         ctx.sample({'fft_case': {k: v for k, v in fft_cases(ctx, 1)[0].items() if k in ('method', 'shape', 'zero_padding', 'lam', 'dx', 'z')}})
 
 
+def sweep(ctx, nseeds):
+    eps, missing, stale = S.classify()
+    ctx.obligation('sweep:every-public-entry-point-classified(%d public functions / methods of %d anchored files: %d with a call recipe, %d documented exclusions)'
+                   % (len(eps), len(S.ANCHORS), len([k for k in eps if k in S.RECIPES]), len([k for k in eps if k in S.EXCLUDED])),
+                   not missing, 'neither a recipe nor a documented exclusion in harness/props/c05_sweep.py: %s' % missing)
+    ctx.extra['sweep_exclusions'] = {k: S.EXCLUDED[k] for k in eps if k in S.EXCLUDED}
+    ctx.extra['sweep_stale_table_entries'] = stale
+    for key in eps:
+        for v in range(len(S.RECIPES.get(key, []))):
+            for k in range(1 if key.endswith('intersect_w_sphere') else nseeds):
+                inp = {'key': key, 'variant': v, 'seed': ctx.rng.randrange(10 ** 6)}
+                bad, res = apply_oracle(ctx, 'sweep', inp)
+                ctx.case('sweep/%s' % key.split(':')[1], (key, v, inp['seed']), nontrivial=len(res) >= 3)
+
+
 def search(ctx):
     """an obligation broke without a concrete failing input: hunt on the implementation (finite differences arbitrate)"""
     T = mods()
     cfg = default_config(ctx.seed)
     ents, errs = build_entries(T, cfg)
+    sweep(ctx, 6)
     for key in sorted(tainted_breakers()):
         apply_oracle(ctx, 'structure', {'function': key})
     for e in ents:
